@@ -22,7 +22,11 @@ static inline std::type_index verif_fake_typeid() { return std::type_index{}; }
 #define private public
 #define protected public
 #define class struct
+#ifdef VERIF_DEV_FLAVOUR
+#include <hfsm2/machine_dev.hpp>      // the split development headers (C15)
+#else
 #include <hfsm2/machine.hpp>
+#endif
 #undef private
 #undef protected
 #undef class
